@@ -61,6 +61,8 @@ def n1(prog, ctx):
                     blocks.setdefault(id(st._parent) if not isinstance(st._parent, ast.If) else (id(st._parent), any(st is x for x in st._parent.body)), {})["suffix"] = (st, v.split(".")[1])
                 elif v.startswith("TranscriptModelType.novel"):
                     blocks.setdefault(id(st._parent) if not isinstance(st._parent, ast.If) else (id(st._parent), any(st is x for x in st._parent.body)), {})["type"] = (st, v.split(".")[1])
+        suffix_vars = {d_["suffix"][0].targets[0].id for d_ in blocks.values() if "suffix" in d_}
+        type_vars = {d_["type"][0].targets[0].id for d_ in blocks.values() if "type" in d_}
         rename = {}
         if not blocks:
             # the decision may live in a helper method returning (type, suffix): follow `a, b = self.helper(path)`
@@ -83,6 +85,15 @@ def n1(prog, ctx):
                                 blocks[id(r)] = d
                                 d["helper"] = h
                     rename.update({pn: src(a) for pn, a in zip(hp, st.value.args)})
+                    # which caller variables receive the returned type / suffix
+                    for r in walk_no_nested(h):
+                        if isinstance(r, ast.Return) and isinstance(r.value, ast.Tuple) and len(r.value.elts) == len(st.targets[0].elts):
+                            for e, t_ in zip(r.value.elts, st.targets[0].elts):
+                                v = dotted(e) or ""
+                                if isinstance(t_, ast.Name) and v.endswith("_transcript_suffix"):
+                                    suffix_vars.add(t_.id)
+                                elif isinstance(t_, ast.Name) and v.startswith("TranscriptModelType."):
+                                    type_vars.add(t_.id)
         if not blocks:
             ctx.fail("N1", f, q, "suffix/type", "no id-suffix / model-type assignments found")
             continue
@@ -128,16 +139,29 @@ def n1(prog, ctx):
                 else:
                     ctx.ok("N1", "%s:%d" % (GMC, s_st.lineno), "mono-exon novel model: nnic / novel_not_in_catalog")
         # the constructor call uses these variables, and the model's intron path is the tested path
+        from ..engine import argswap
+        tm_init = prog.func("src/gene_info.py", "TranscriptModel.__init__")
+        exon_args = []
         for c in ctors:
-            args = [src(a) for a in c.args]
-            if len(c.args) < 6 or "id_suffix" not in args[2] or args[5] != "transcript_type":
+            b_ = argswap.bind_args(c, tm_init, bound_method=True)
+            id_names = {x.id for x in ast.walk(b_["transcript_id"]) if isinstance(x, ast.Name)} if "transcript_id" in b_ else set()
+            ty = b_.get("transcript_type")
+            if not (id_names & suffix_vars) or not (isinstance(ty, ast.Name) and ty.id in type_vars):
                 ctx.fail("N1", c, q, src(c)[:100], "TranscriptModel is not built from the id_suffix / transcript_type decided above")
             else:
                 ctx.ok("N1", "%s:%d" % (GMC, c.lineno), "TranscriptModel(id + id_suffix, ..., transcript_type)")
+            if "exon_blocks" in b_:
+                exon_args.append(b_["exon_blocks"])
         if q.endswith("construct_fl_isoforms"):
             paths = ctx.extra.get("n1_paths", set())
             ip = [st for st in walk_no_nested(f) if isinstance(st, ast.Assign) and src(st.targets[0]).endswith(".intron_path")]
-            ex = [st for st in walk_no_nested(f) if isinstance(st, ast.Assign) and src(st.targets[0]) == "novel_exons"]
+            # the exon list handed to the constructor (through its local, if any) is computed from the tested path
+            ex = []
+            for ea in exon_args:
+                if isinstance(ea, ast.Name):
+                    ex += [st for st in walk_no_nested(f) if isinstance(st, ast.Assign) and src(st.targets[0]) == ea.id]
+                else:
+                    ex.append(ast.Assign(targets=[ast.Name(id="_", ctx=ast.Store())], value=ea))
             if len(paths) != 1 or len(ip) != 1 or src(ip[0].value) not in paths or len(ex) != 1 or not any(p in src(ex[0].value) for p in paths):
                 ctx.fail("N1", f, q, "intron path", "the path tested against the annotation (%s) is not the one the model's exons and "
                          "intron_path are built from" % sorted(paths))
@@ -178,9 +202,12 @@ def n1(prog, ctx):
              and src(c.comparators[0]) == "self.known_isoforms_in_graph"]
     paths = ctx.extra.get("n1_paths") or []
     g = prog.func(GMC, "GraphBasedModelConstructor.get_known_spliced_isoforms")
+    # the key stored is tuple(<local>) where <local> is the result of thread_introns(...) (whatever the local is called)
+    thr = [s_ for s_ in walk_no_nested(g) if isinstance(s_, ast.Assign) and isinstance(s_.targets[0], ast.Name) and "thread_introns" in src(s_.value)]
+    thr_names = {s_.targets[0].id for s_ in thr}
     keyed = [s_ for s_ in walk_no_nested(g) if isinstance(s_, ast.Assign) and isinstance(s_.targets[0], ast.Subscript)
-             and src(s_.targets[0].slice) == "tuple(intron_path)"]
-    thr = [s_ for s_ in walk_no_nested(g) if isinstance(s_, ast.Assign) and src(s_.targets[0]) == "intron_path" and "thread_introns" in src(s_.value)]
+             and isinstance(s_.targets[0].slice, ast.Call) and call_name(s_.targets[0].slice) == "tuple" and s_.targets[0].slice.args
+             and src(s_.targets[0].slice.args[0]) in thr_names]
     if not keyed or not thr:
         ctx.fail("N3", g, g._qualname, "known_isoforms key", "known_isoforms_in_graph is no longer keyed by the threaded intron chain")
     if not tests:
